@@ -35,11 +35,63 @@ macro_rules! c13_ghost_support {
             Mac,     // a = key,  b = data
         }
 
+        /// capacity of a recorded key-like argument (salt / prk / MAC key) and of a recorded
+        /// data-like argument (ikm / info / hashed or MACed data); longer arguments fail an
+        /// assertion, so nothing is silently truncated
+        pub(crate) const A_CAP: usize = 16;
+        pub(crate) const B_CAP: usize = 64;
+        pub(crate) const MAX_CALLS: usize = 10;
+
+        /// One recorded provider call.  Arguments are stored zero padded in fixed arrays so
+        /// that two of them can be compared with a few u128 comparisons instead of a loop
+        /// (every loop of a harness is unwound up to the harness-wide bound).
+        #[derive(Clone, Copy)]
         pub(crate) struct Call {
             pub op: Op,
-            pub a: ::alloc::vec::Vec<u8>,
-            pub b: ::alloc::vec::Vec<u8>,
+            pub a: [u8; A_CAP],
+            pub a_len: usize,
+            pub b: [u8; B_CAP],
+            pub b_len: usize,
             pub len: usize,
+        }
+
+        pub(crate) fn pad_a(x: &[u8]) -> [u8; A_CAP] {
+            assert!(x.len() <= A_CAP);
+            let mut o = [0u8; A_CAP];
+            o[..x.len()].copy_from_slice(x);
+            o
+        }
+
+        pub(crate) fn pad_b(x: &[u8]) -> [u8; B_CAP] {
+            assert!(x.len() <= B_CAP);
+            let mut o = [0u8; B_CAP];
+            o[..x.len()].copy_from_slice(x);
+            o
+        }
+
+        fn chunk(x: &[u8], at: usize) -> u128 {
+            let c: [u8; 16] = [
+                x[at], x[at + 1], x[at + 2], x[at + 3], x[at + 4], x[at + 5], x[at + 6], x[at + 7],
+                x[at + 8], x[at + 9], x[at + 10], x[at + 11], x[at + 12], x[at + 13], x[at + 14],
+                x[at + 15],
+            ];
+            u128::from_be_bytes(c)
+        }
+
+        pub(crate) fn eq_a(x: &[u8; A_CAP], y: &[u8; A_CAP]) -> bool {
+            chunk(x, 0) == chunk(y, 0)
+        }
+
+        pub(crate) fn eq_b(x: &[u8; B_CAP], y: &[u8; B_CAP]) -> bool {
+            chunk(x, 0) == chunk(y, 0)
+                && chunk(x, 16) == chunk(y, 16)
+                && chunk(x, 32) == chunk(y, 32)
+                && chunk(x, 48) == chunk(y, 48)
+        }
+
+        /// equality of two byte strings of length <= B_CAP, without a loop
+        pub(crate) fn bytes_eq(x: &[u8], y: &[u8]) -> bool {
+            x.len() == y.len() && eq_b(&pad_b(x), &pad_b(y))
         }
 
         #[derive(Debug)]
@@ -101,7 +153,8 @@ macro_rules! c13_ghost_support {
         }
 
         pub(crate) struct GhostProvider {
-            pub trace: ::core::cell::RefCell<::alloc::vec::Vec<Call>>,
+            pub trace: ::core::cell::RefCell<[Call; MAX_CALLS]>,
+            pub n: ::core::cell::Cell<usize>,
             /// index of the call that fails (the failing call is still recorded)
             pub fail_at: Option<usize>,
         }
@@ -111,8 +164,17 @@ macro_rules! c13_ghost_support {
 
         impl GhostProvider {
             pub(crate) fn new() -> Self {
+                let empty = Call {
+                    op: Op::Hash,
+                    a: [0; A_CAP],
+                    a_len: 0,
+                    b: [0; B_CAP],
+                    b_len: 0,
+                    len: 0,
+                };
                 GhostProvider {
-                    trace: ::core::cell::RefCell::new(::alloc::vec::Vec::with_capacity(16)),
+                    trace: ::core::cell::RefCell::new([empty; MAX_CALLS]),
+                    n: ::core::cell::Cell::new(0),
                     fail_at: None,
                 }
             }
@@ -124,9 +186,11 @@ macro_rules! c13_ghost_support {
             }
 
             fn record(&self, op: Op, a: &[u8], b: &[u8], len: usize) -> Result<u8, GhostError> {
-                let mut t = self.trace.borrow_mut();
-                let idx = t.len();
-                t.push(Call { op, a: a.to_vec(), b: b.to_vec(), len });
+                let idx = self.n.get();
+                assert!(idx < MAX_CALLS);
+                self.trace.borrow_mut()[idx] =
+                    Call { op, a: pad_a(a), a_len: a.len(), b: pad_b(b), b_len: b.len(), len };
+                self.n.set(idx + 1);
                 if self.fail_at == Some(idx) {
                     return Err(GhostError);
                 }
@@ -134,17 +198,21 @@ macro_rules! c13_ghost_support {
             }
 
             pub(crate) fn calls(&self) -> usize {
-                self.trace.borrow().len()
+                self.n.get()
             }
 
             /// call `i` is exactly `op(a, b)` with requested length `len`
             pub(crate) fn is(&self, i: usize, op: Op, a: &[u8], b: &[u8], len: usize) -> bool {
-                let t = self.trace.borrow();
-                i < t.len()
-                    && t[i].op == op
-                    && t[i].len == len
-                    && bytes_eq(&t[i].a, a)
-                    && bytes_eq(&t[i].b, b)
+                if i >= self.n.get() {
+                    return false;
+                }
+                let c = self.trace.borrow()[i];
+                c.op == op
+                    && c.len == len
+                    && c.a_len == a.len()
+                    && c.b_len == b.len()
+                    && eq_a(&c.a, &pad_a(a))
+                    && eq_b(&c.b, &pad_b(b))
             }
 
             /// the output tag of THE call `op(a, b, len)`; None if there is none or more than one
@@ -162,6 +230,30 @@ macro_rules! c13_ghost_support {
                     i += 1;
                 }
                 found
+            }
+
+            /// both providers saw the same sequence of calls
+            pub(crate) fn same_trace(&self, q: &GhostProvider) -> bool {
+                let n = self.calls();
+                if q.calls() != n {
+                    return false;
+                }
+                let mut i = 0;
+                while i < n {
+                    let c = self.trace.borrow()[i];
+                    let d = q.trace.borrow()[i];
+                    if !(c.op == d.op
+                        && c.len == d.len
+                        && c.a_len == d.a_len
+                        && c.b_len == d.b_len
+                        && eq_a(&c.a, &d.a)
+                        && eq_b(&c.b, &d.b))
+                    {
+                        return false;
+                    }
+                    i += 1;
+                }
+                true
             }
         }
 
@@ -182,20 +274,6 @@ macro_rules! c13_ghost_support {
 
         pub(crate) fn out(tag: u8, n: usize) -> ::alloc::vec::Vec<u8> {
             ::alloc::vec![tag; n]
-        }
-
-        pub(crate) fn bytes_eq(a: &[u8], b: &[u8]) -> bool {
-            if a.len() != b.len() {
-                return false;
-            }
-            let mut i = 0;
-            while i < a.len() {
-                if a[i] != b[i] {
-                    return false;
-                }
-                i += 1;
-            }
-            true
         }
 
         impl ::mls_rs_core::crypto::CipherSuiteProvider for GhostProvider {
